@@ -22,6 +22,19 @@ CLAIMED = {
         design="5 C04",
         technique="Coq proof by structural induction (mixed-radix bijection) + extracted-model differential correspondence",
         note=BASE_NOTE + " Outside the model: int64 overflow for >= 2^62 points, Discrete(start != 0)."),
+    "C05": dict(
+        text=("Proof: flatdim/flatten/unflatten/flatten_space are modelled in Gallina "
+              "(Spaces/Flatten.v, including numpy's upcast of integer parts when concatenated with "
+              "float parts and the np.split offsets) and length, Box membership, value-preserving "
+              "round trip (also under upcast), 'integer exactly when every leaf is' and exact round "
+              "trip for all-integer spaces are proved by structural induction over every nesting "
+              "(Props/P_C05.v, 9 theorems, no axioms). Each run re-checks them and runs the extracted "
+              "model and the extracted checker chk_C05 against /repo's functions (gymnasium's "
+              "contains() as membership oracle) on all points of small spaces and sampled dyadic "
+              "points otherwise."),
+        design="5 C05",
+        technique="Coq proof by structural induction over nested spaces + extracted-model differential correspondence",
+        note=BASE_NOTE + " Float leaves are dyadic rationals k/1024; float32 narrowing is outside the model."),
 }
 
 
